@@ -1,6 +1,7 @@
 import PycModel.Spec.Decl
 import PycModel.Properties.Tables
 import PycModel.Proofs.DeclSkel
+import PycModel.Proofs.DeclParse
 /-!
 # C03 — declaration ASTs encode C declarator semantics
 
@@ -157,6 +158,80 @@ example : ∃ s',
     ("INT_CONST_DEC", "3"), ("RBRACKET", "]"), ("RPAREN", ")"), ("LPAREN", "("), ("RPAREN", ")"), ("SEMI", ";")]
   obtain ⟨s', hr, hs', _⟩ := parse_declarator d hwf _ [("SEMI", ";")] hs
     (by intro k v r h; cases h; exact ⟨by decide, by decide⟩) 100 (by decide)
+  exact ⟨s', hr, _, hs'⟩
+
+open PycModel.DeclSkel PycModel.TypeModify PycModel.View PycModel.FullExpr PycModel.DeclParse PycModel.BuildDecl in
+/-- **Declarations, from tokens to `Decl` nodes.** For every declaration
+
+    specifiers  declarator [= assignment-expression] {, declarator [= assignment-expression]} ;
+
+of any length - specifiers: qualifiers, storage classes (other than `typedef`), function specifiers,
+type keywords and typedef names of the environment, at least one type specifier; declarators:
+pointers with qualifiers, array and `()` suffixes (no grouping parentheses), any depth; the
+declared names not typedef names - `_parse_declaration` returns `dc.vals`: **one `Decl` per
+declared name, in source order**, each with its own name, modifier chain (`declarators_are_read_inside_out`:
+the derivations in C's inside-out order) and initializer, all carrying every specifier list
+complete and in source order, the chain ending in a `TypeDecl` with the qualifiers and one
+`IdentifierType` that lists the type-specifier names as spelled; and it consumes exactly the tokens
+of the declaration.  Nothing is assumed about the parser: the look-ahead scan of
+`_parse_any_declarator`, its `_reset`, `_build_declarations`, `_fix_decl_name_type`,
+`fix_atomic_specifiers` and the registration of the names in the scope stack are all executed. -/
+theorem declarations_parse_as_the_grammar_says (dc : Dcl) (hwf : WFDcl dc) (hty : ∀ x ∈ dc.names, env.ty x = false)
+    (s : PState) (rest : List Tk) (hs : SeesT env s (dc.flat ++ rest)) (F : Nat) (hF : dc.fuel + 1 ≤ F) :
+    ∃ s', run F .declaration s = .ok (dc.vals s.idx) s' ∧ SeesT env s' rest ∧ s'.idx = s.idx + dc.ntoks :=
+  parse_declaration dc hwf hty s rest hs F hF
+
+open PycModel.DeclSkel PycModel.TypeModify PycModel.View PycModel.FullExpr PycModel.DeclParse PycModel.BuildDecl in
+/-- every declared entity gets its own `Decl` with its own name, in source order -/
+theorem one_decl_per_declared_name (dc : Dcl) (n : Nat) (hsaw : sawAfter false dc.specs = true) :
+    (dc.vals n).map (fun v => v.getAttr "name") = dc.names.map fun x => some (Val.str x) := by
+  unfold Dcl.vals
+  cases htn : typeNames n dc.specs with
+  | nil => exact absurd htn (typeNames_ne_nil _ _ false hsaw rfl)
+  | cons p0 names =>
+    simp only [List.map_map, Dcl.dis, Dcl.names, List.map_cons]
+    have h1 : ∀ d : DI, (declOut (foldSpec n {} dc.specs) p0.2 (specNames p0 names) d).getAttr "name" = some (.str d.x) :=
+      fun _ => rfl
+    have h2 := restDIs_names dc.more (n + dc.specs.length + dc.first.ntoks)
+    simp only [Function.comp_def, h1, IDc.di, List.cons.injEq, true_and]
+    have h3 := congrArg (List.map fun x => some (Val.str x)) h2
+    simpa [List.map_map, Function.comp_def] using h3
+
+open PycModel.DeclSkel PycModel.TypeModify PycModel.View PycModel.FullExpr PycModel.DeclParse PycModel.BuildDecl in
+/-- non-vacuity: `static const unsigned long * p [ 3 ] = x , q ;` - two `Decl`s; `p` an array of 3
+pointers (array outermost), both with storage `static`, qualifier `const` and the type names
+`unsigned long` in this order -/
+example : ∃ s',
+    run 200 .declaration
+      (initState ([("STATIC", "static"), ("CONST", "const"), ("UNSIGNED", "unsigned"), ("LONG", "long"), ("TIMES", "*"),
+                   ("ID", "p"), ("LBRACKET", "["), ("INT_CONST_DEC", "3"), ("RBRACKET", "]"), ("EQUALS", "="), ("ID", "x"),
+                   ("COMMA", ","), ("ID", "q"), ("SEMI", ";")].map (fun t => SEv.tok t.1 t.2) ++ [.eof]))
+      = .ok [mk .Decl (tc 5) [.str "p", .list [.str "const"], .list [], .list [.str "static"], .list [],
+               mk .ArrayDecl (tc 5) [
+                 mk .PtrDecl (tc 4) [.list [],
+                   mk .TypeDecl (tc 5) [.str "p", .list [.str "const"], .none,
+                     mk .IdentifierType (tc 2) [.list [.str "unsigned", .str "long"]]]],
+                 mk .Constant (tc 7) [.str "int", .str "3"], .list []],
+               mk .ID (tc 10) [.str "x"], .none],
+             mk .Decl (tc 12) [.str "q", .list [.str "const"], .list [], .list [.str "static"], .list [],
+               mk .TypeDecl (tc 12) [.str "q", .list [.str "const"], .none,
+                 mk .IdentifierType (tc 2) [.list [.str "unsigned", .str "long"]]],
+               .none, .none]] s' ∧ (∃ env, SeesT env s' []) := by
+  let dc : Dcl :=
+    { specs := [("STATIC", "static"), ("CONST", "const"), ("UNSIGNED", "unsigned"), ("LONG", "long")],
+      first := { d := .ptr [[]] (.arr (.name "p") (some (.const "INT_CONST_DEC" "3" "int"))), init := some (.id "x") },
+      more := [{ d := .name "q", init := none }] }
+  have hwf : WFDcl dc := by
+    refine ⟨by simp [dc, SpecToks, quals3, storage5, typeSpecSimple, isTypeTok], ?_, rfl, ⟨?_, trivial, ?_⟩, ?_⟩
+    · intro t ht; simp only [dc, List.mem_cons, List.not_mem_nil, or_false] at ht
+      rcases ht with rfl | rfl | rfl | rfl <;> exact ⟨by decide, by decide⟩
+    · refine .ptr _ _ (by simp) (by simp) (.arr _ _ (.name _) rfl ?_) rfl
+      intro e h; cases h; exact .const _ _ _ _ (by decide)
+    · intro e h; cases h; exact .id _ _
+    · intro it hit; simp only [dc, List.mem_singleton] at hit; subst hit
+      exact ⟨.name _, trivial, by intro e h; cases h⟩
+  have hs := ParenExpr.seesT_init (dc.flat ++ [])
+  obtain ⟨s', hr, hs', _⟩ := parse_declaration dc hwf (fun _ _ => rfl) _ [] hs 200 (by decide)
   exact ⟨s', hr, _, hs'⟩
 
 end PycModel.C03
